@@ -56,6 +56,14 @@ func runC01(p *Prog, r *Report) {
 				o2.Rule = "C01.R10"
 				r.Obs = append(r.Obs, &o2)
 			}
+			// (c) the sender puts each built frame on the wire once, and its bytes are still the builder's
+			// when it does (C07.R1 / C07.R2 sender clauses re-evaluated: a buffer returned to the pool
+			// before the write is overwritten by the next builder - one target probed twice, one never)
+			if (o.Rule == "C07.R1" || o.Rule == "C07.R2") && strings.Contains(o.Construct, "SendPackets") {
+				o2 := *o
+				o2.Rule = "C01.R10"
+				r.Obs = append(r.Obs, &o2)
+			}
 		}
 		sub8 := NewReport("C01x", "quick")
 		runC08(p, sub8)
@@ -63,6 +71,21 @@ func runC01(p *Prog, r *Report) {
 			if o.Rule == "C08.R2" && strings.HasSuffix(o.Construct, "/worker-count") {
 				o2 := *o
 				o2.Rule = "C01.R10"
+				r.Obs = append(r.Obs, &o2)
+			}
+		}
+	}
+	// R11: "minus excluded addresses" - the exclusion stage is wired in on every target mode of every scan
+	// type and drops exactly the covered addresses (C02.R3 wiring and C02.R4 filter loop re-evaluated)
+	r.Min("C01.R11", 6+4)
+	{
+		sub2 := NewReport("C01x", "quick")
+		checkExclusionWiring(p, sub2)
+		checkFilterStage(p, sub2)
+		for _, o := range sub2.Obs {
+			if o.Rule == "C02.R3" || o.Rule == "C02.R4" {
+				o2 := *o
+				o2.Rule = "C01.R11"
 				r.Obs = append(r.Obs, &o2)
 			}
 		}
